@@ -483,7 +483,15 @@ func (g *c14Gen) writeStruct(path, ind string, v reflect.Value, mu *mutation, sb
 						if mu.kind == "unknownattr" && mu.path == p && !mu.done {
 							mu.done = true
 							mu.line = lineOf(sb)
-							sb.WriteString(ind + "    NoSuchSetting = 1\n")
+							stray := "NoSuchSetting"
+							if g.r.Bool() { // ... or a setting that has the name of a block type of this very body
+								for j := 0; j < e.Type().NumField(); j++ {
+									if bt, ok := yaotlTag(e.Type().Field(j)); ok && bt.kind == "block" {
+										stray = bt.name
+									}
+								}
+							}
+							sb.WriteString(ind + "    " + stray + " = 1\n")
 						}
 						sb.WriteString(ind + "}\n")
 					}
